@@ -99,3 +99,57 @@ func isParamCopy(fn *ssa.Function, u *ssa.UnOp) bool {
 	}
 	return true
 }
+
+// structuralBlockingSend decides, on the CFG alone (channels are outside the symbolic executor's subset): the
+// function performs exactly one channel send, it is an unconditional blocking send (no select anywhere in the
+// function, so there is no default branch that could drop the value), the block holding it dominates every
+// return, and the function starts no goroutine (the send happens on the caller's goroutine, before it returns).
+func structuralBlockingSend(fn *ssa.Function) (bool, string) {
+	if len(fn.Blocks) == 0 {
+		return false, "no body"
+	}
+	var sendBlock *ssa.BasicBlock
+	n := 0
+	for _, b := range fn.Blocks {
+		for _, in := range b.Instrs {
+			switch in.(type) {
+			case *ssa.Send:
+				n++
+				sendBlock = b
+			case *ssa.Select:
+				return false, "a select statement (a send that can be skipped)"
+			case *ssa.Go:
+				return false, "a goroutine is started"
+			}
+		}
+	}
+	if n != 1 {
+		return false, fmt.Sprintf("%d channel sends", n)
+	}
+	for _, b := range fn.Blocks {
+		if b == fn.Recover {
+			continue
+		}
+		for _, in := range b.Instrs {
+			if _, ok := in.(*ssa.Return); ok && !sendBlock.Dominates(b) {
+				return false, "a return that is not preceded by the send"
+			}
+		}
+	}
+	return true, ""
+}
+
+// structuralNoGo: the function (not its callees) starts no goroutine and performs no channel operation.
+func structuralNoGo(fn *ssa.Function) (bool, string) {
+	for _, b := range fn.Blocks {
+		for _, in := range b.Instrs {
+			switch in.(type) {
+			case *ssa.Go:
+				return false, "a goroutine is started"
+			case *ssa.Send, *ssa.Select:
+				return false, "a channel operation"
+			}
+		}
+	}
+	return true, ""
+}
